@@ -51,6 +51,8 @@ def _base_world(rng, defaults, dirs=('policy.d',), new_defaults=None):
         'enforce_new_defaults': rng.random() < 0.5
         if new_defaults is None else new_defaults,
         'enforce_scope': True, 'via': 'config_dir',
+        'debug_logging': rng.random() < 0.25,
+        'creds_as_context': False, 'use_authorize': False,
         'pf': {'how': 'untouched', 'value': 'policy.yaml',
                'fallback': True, 'ctor': None}}
     for d in dirs:
